@@ -79,6 +79,7 @@ type Contract struct {
 	Opaque []string
 	PerReturn bool
 	NoFrame   bool
+	LoopNoFrame map[int]bool
 	ExitGhost []*SiteClause
 	Props map[string]bool // property tags mentioned
 	SafetyProps map[string]bool // properties owning the implicit safety/termination obligations
@@ -548,6 +549,14 @@ func parseContract(key string, clauses []string, where string) (*Contract, error
 					c.LoopDecr[k] = append(c.LoopDecr[k], e)
 				}
 			case "modifies":
+				if strings.TrimSpace(f[2]) == "everything" {
+					// no loop frame: the whole heap is havocked at the head, only the invariants survive
+					if c.LoopNoFrame == nil {
+						c.LoopNoFrame = map[int]bool{}
+					}
+					c.LoopNoFrame[k] = true
+					break
+				}
 				for _, item := range splitTop(f[2]) {
 					e, err := ParseExpr(item, w)
 					if err != nil {
